@@ -12,6 +12,7 @@ From SV Require Proofs.TcpNetInv.
 From SV Require Import Proofs.TcpProgressBase Proofs.TcpProgressFrame Proofs.TcpProgressCtl Proofs.TcpProgressRecv
   Proofs.TcpProgressSend Proofs.TcpProgressNet Proofs.TcpProgressData Proofs.TcpProgressAck
   Proofs.TcpProgressAll Proofs.TcpProgressSafe Proofs.TcpProgressExample Proofs.TcpProgressWitness.
+From SV Require Import Proofs.TcpProgressHsNet Proofs.TcpProgressHsInit.
 
 Section RegDec.
 Variable x : side.
@@ -250,3 +251,87 @@ Theorem discharge_applies :
     exists p1 p2 st1, wit_suffix = p1 ++ p2 /\ net_run st p1 = Ok st1 /\ net_run st1 p2 = Ok st' /\
                       5 <= read_off (net_get st1 SB).
 Proof. destruct ex_cfg_good as (Ga & Gb). exact (dis_package _ _ _ _ _ _ _ _ _ _ Ga Gb dis_check_ok). Qed.
+
+(* ---------------------------------------------------------------------------------------- *)
+(* the same run under the theorem from net_init: no premise on the handshake-completed state   *)
+(* ---------------------------------------------------------------------------------------- *)
+Definition init_check (ca cb : ep_config) (pre suf : list net_event) (Dt Da Dack L : Z) (n m : nat) : bool :=
+  match net_init ca cb with
+  | Ok st0 =>
+      net_started st0 && forallb (app_evb SA) pre &&
+      match net_run st0 pre with
+      | Ok st =>
+          tcp_state_eqb (s_state (net_sock st SA)) Established && tcp_state_eqb (s_state (net_sock st SB)) Established &&
+          opts_okb st && fair_runb Dt Da (fa_init Dt Da st) st suf &&
+          run_winb SA st suf && forallb (app_evb SA) suf &&
+          (L <=? l_len (ep_written (net_get st SA))) && (L - una_off (net_get st SA) <=? Z.of_nat n) &&
+          (L - read_off (net_get st SB) <=? Z.of_nat m) && (0 <=? Dt) && (0 <=? Da) && (0 <=? Dack) &&
+          match net_run st suf with
+          | Ok st' => (net_now st SA + Z.of_nat n * W3 Dt Dack + Z.of_nat m * Da <? net_now st' SA) &&
+                      (l_len (ep_written (net_get st' SA)) <? 2 ^ 30) && (l_len (ep_written (net_get st' SB)) <? 2 ^ 30)
+          | _ => false
+          end
+      | _ => false
+      end
+  | _ => false
+  end.
+
+Lemma init_package ca cb pre suf Dt Da Dack L n m :
+  cfg_good ca -> cfg_good cb -> cfg_plain ca -> cfg_plain cb -> c_addr ca <> 0 ->
+  match c_ack_delay cb with Some d => 0 <= d <= Dack | None => True end ->
+  init_check ca cb pre suf Dt Da Dack L n m = true ->
+  exists st0 st st',
+    start_ok Dack ca cb st0 /\ net_run st0 pre = Ok st /\ net_run st suf = Ok st' /\
+    exists p1 p2 st1, suf = p1 ++ p2 /\ net_run st p1 = Ok st1 /\ net_run st1 p2 = Ok st' /\
+                      L <= read_off (net_get st1 SB).
+Proof.
+  intros Ga Gb Pa Pb Haddr Hdel H. unfold init_check in H.
+  destruct (net_init ca cb) as [st0|e|] eqn:Ei; try discriminate.
+  apply andb_true_iff in H. destruct H as (H & Hrest).
+  apply andb_true_iff in H. destruct H as (Hst & Hpa).
+  destruct (net_run st0 pre) as [st|e|] eqn:Ep; try discriminate.
+  apply andb_true_iff in Hrest. destruct Hrest as (H & Hend).
+  apply andb_true_iff in H. destruct H as (H & Hd3).
+  apply andb_true_iff in H. destruct H as (H & Hd2).
+  apply andb_true_iff in H. destruct H as (H & Hd1).
+  apply andb_true_iff in H. destruct H as (H & Hm).
+  apply andb_true_iff in H. destruct H as (H & Hu).
+  apply andb_true_iff in H. destruct H as (H & Hw).
+  apply andb_true_iff in H. destruct H as (H & Happ).
+  apply andb_true_iff in H. destruct H as (H & Hwin).
+  apply andb_true_iff in H. destruct H as (H & Hf).
+  apply andb_true_iff in H. destruct H as (H & Ho).
+  apply andb_true_iff in H. destruct H as (Hea & Heb).
+  destruct (net_run st suf) as [st'|e|] eqn:Es; try discriminate.
+  apply andb_true_iff in Hend. destruct Hend as (Hend & Hsb).
+  apply andb_true_iff in Hend. destruct Hend as (Hclk & Hsa).
+  assert (Hstart : start_ok Dack ca cb st0) by (unfold start_ok; auto 10).
+  assert (Hfs : fair_schedule Dt Da st suf).
+  { split; [lia|]. split; [lia|]. split; [apply opts_okb_sound; exact Ho | apply fair_runb_sound; exact Hf]. }
+  assert (Hest : forall z, s_state (net_sock st z) = Established).
+  { intros z. destruct z; apply tcp_state_eqb_eq; assumption. }
+  exists st0, st, st'. split; [exact Hstart|]. split; [first [reflexivity | exact Ep]|].
+  split; [first [reflexivity | exact Es]|].
+  apply (oneway_delivery_from_net_init Dt Da Dack ca cb st0 n m pre suf st st' L Hstart
+           (app_evb_sound SA pre Hpa) Ep Hest Hfs ltac:(lia) (app_evb_sound SA suf Happ) Es); try lia.
+  - intros z. destruct z; cbn [net_get] in *; lia.
+  - exact (run_winb_sound SA suf st Hwin).
+Qed.
+
+Lemma init_check_ok : init_check ex_cfg_a ex_cfg_b wit_prefix wit_suffix 5000 5000 10000 5 5 5 = true.
+Proof. vm_compute. reflexivity. Qed.
+
+(* from net_init: a lossy prefix that completes the handshake, then a fair suffix *)
+Theorem delivery_from_net_init_applies :
+  exists st0 st st',
+    start_ok 10000 ex_cfg_a ex_cfg_b st0 /\ net_run st0 wit_prefix = Ok st /\ net_run st wit_suffix = Ok st' /\
+    exists p1 p2 st1, wit_suffix = p1 ++ p2 /\ net_run st p1 = Ok st1 /\ net_run st1 p2 = Ok st' /\
+                      5 <= read_off (net_get st1 SB).
+Proof.
+  destruct ex_cfg_good as (Ga & Gb).
+  apply (init_package ex_cfg_a ex_cfg_b wit_prefix wit_suffix 5000 5000 10000 5 5 5 Ga Gb); try exact init_check_ok.
+  - split; reflexivity.
+  - split; reflexivity.
+  - cbn. lia.
+  - cbn. unfold tcp_ACK_DELAY_DEFAULT. lia.
+Qed.
